@@ -13,6 +13,10 @@
               skipped (rel=partial);
    for every pass (hook H1b: ALLSEG / AROUTE / ASEG records) one line "G ..." with
      - grp:   the regions the extracted seg_groups forms from the whole segment list vs the regions the code dumped;
+     - mem:   completeness of the pass's segment list (seeded change C10-6): the extracted route_members recomputed from every
+              AROUTE record (every orthogonal connector, fixed routes included) vs the ASEG records - members_covered (every
+              positive-length route segment lying in the shift dimension is in the list, with its indexes / position / extent)
+              and members_only (nothing else is); together with grp= every route segment is in a dumped or skipped region;
      - cpl:   the checkpoint-limit oracle cp_limit_ok for every shiftable middle segment and every checkpoint (CPS records
               written by the check) lying on one of its two adjoining route segments;
    and for every scene one line with the verdicts of the verified scene checker components.
@@ -327,6 +331,23 @@ let do_pass (idx : int) (p : dpass) (cps : (int * (q * q) list) list) =
                          (String.concat " " (List.map (fun (c, i) -> Printf.sprintf "%d.%d" c i) (keys g)))); false)
               else true in
         if walk gs (List.rev p.p_regions) 0 then "ok" else "DIFF" in
+  (* --- completeness of the segment list: every route segment of every connector in this dimension is a member *)
+  let mem =
+    let dimb = (p.p_dim = 1) in
+    let routes = List.rev_map (fun (c, arr) -> (z_of_int c, List.map (fun (x, y) -> { px = x; py = y }) (Array.to_list arr))) p.p_routes in
+    let msegs = List.map (fun (s, idxs) -> (s, List.map nat_of_int idxs)) segs in
+    let cov = members_covered dimb routes msegs and only = members_only dimb routes msegs in
+    if cov && only then "ok" else begin
+      let exp = pass_members dimb routes in
+      List.iter (fun (c, m) ->
+          if not (List.exists (fun x -> mem_matches c m x) msegs) then
+            note (Printf.sprintf "route segment %d.%d-%d at %g [%g,%g] is in no region (not in the segment list)" (int_of_z c)
+                    (int_of_nat m.m_lowi) (int_of_nat m.m_highi) (float_of_q m.m_pos) (float_of_q m.m_lo) (float_of_q m.m_hi))) exp;
+      List.iter (fun ((s : seg), idxs) ->
+          if not (List.exists (fun (c, m) -> mem_matches c m (s, idxs)) exp) then
+            note (Printf.sprintf "listed segment of %d at %g [%g,%g] is no route segment" (int_of_z s.sconn)
+                    (float_of_q s.spos) (float_of_q s.slo) (float_of_q s.shi))) msegs;
+      "DIFF" end in
   (* --- checkpoint limits of shiftable middle segments *)
   let cpl_bad = ref [] in
   let coord (pt : q * q) dim = if dim = 0 then fst pt else snd pt in
@@ -351,7 +372,7 @@ let do_pass (idx : int) (p : dpass) (cps : (int * (q * q) list) list) =
               end in
             adj i0 (i0 - 1); adj i1 (i1 + 1)
         | _ -> ()) segs;
-  Printf.printf "G %d dim=%d unify=%d grp=%s cpl=[%s] notes=%s\n" idx p.p_dim (if p.p_unify then 1 else 0) grp
+  Printf.printf "G %d dim=%d unify=%d grp=%s mem=%s cpl=[%s] notes=%s\n" idx p.p_dim (if p.p_unify then 1 else 0) grp mem
     (String.concat "," (List.rev !cpl_bad)) (Buffer.contents notes)
 
 (* ------------------------------------------------------------------ scenes *)
@@ -370,9 +391,9 @@ let do_scene (idx : int) (tol : q) (dist : q) (boxes : box list) (cs : sconn0 li
     | a :: t -> List.iter (fun b -> if not (pair_ok tol dist boxes cs a b) then
                               bad_pairs := Printf.sprintf "%d/%d" (int_of_z a.c_id) (int_of_z b.c_id) :: !bad_pairs) t; pairs t in
   pairs cs;
-  Printf.printf "S %d ok=%d ends=[%s] cps=[%s] nseg=[%s] orth=[%s] clear=[%s] pairs=[%s]\n" idx
+  Printf.printf "S %d ok=%d ends=[%s] cps=[%s] nseg=[%s] orth=[%s] clear=[%s] fixed=[%s] pairs=[%s]\n" idx
     (if scene_ok tol dist boxes cs then 1 else 0)
-    (ids ends_kept) (ids cps_kept) (ids no_new_segments) (ids still_orth) (ids (still_clear boxes))
+    (ids ends_kept) (ids cps_kept) (ids no_new_segments) (ids still_orth) (ids (still_clear boxes)) (ids fixed_kept)
     (String.concat "," (List.rev !bad_pairs))
 
 (* ------------------------------------------------------------------ main loop *)
@@ -515,8 +536,10 @@ let () =
            let (raw, r1) = parse_pts rest in
            let (disp, r2) = parse_pts r1 in
            let (cps, r3) = parse_pts r2 in
-           let att = List.map (fun s -> z_of_int (int_of_string s)) (List.tl r3) in
-           sc_conns := { c_id = z_of_int (int_of_string id); c_raw = raw; c_disp = disp; c_cps = cps; c_att = att } :: !sc_conns
+           let natt = int_of_string (List.hd r3) in
+           let att = List.map (fun s -> z_of_int (int_of_string s)) (take natt (List.tl r3)) in
+           let fx = (match drop natt (List.tl r3) with "FX" :: _ -> true | _ -> false) in
+           sc_conns := { c_id = z_of_int (int_of_string id); c_raw = raw; c_disp = disp; c_cps = cps; c_att = att; c_fixed = fx } :: !sc_conns
        | "ENDSCENE" :: _ ->
            (try do_scene !sidx !sc_tol !sc_dist (List.rev !sc_boxes) (List.rev !sc_conns)
             with e -> Printf.printf "S %d ERROR %s\n" !sidx (Printexc.to_string e));
